@@ -237,9 +237,9 @@ def ensure_corr(seed, tier, build):
     t0 = time.time()
     work = os.path.join(CACHE, 'work')
     os.makedirs(work, exist_ok=True)
-    n_main = 160 if tier == 'quick' else 2400
+    n_main = 320 if tier == 'quick' else 2400
     n_twin = 96 if tier == 'quick' else 640
-    n_wrap = 48 if tier == 'quick' else 480
+    n_wrap = 64 if tier == 'quick' else 480
     res = {'seed': seed, 'tier': tier, 'disagreements': [], 'violations': [], 'stats': {}, 'samples': [], 'errors': []}
     corp = corpus_histories()
     hists, _, kinds, ncalls = generate(seed, n_main)
@@ -431,6 +431,28 @@ def hygiene_scan():
     return bad
 
 
+def coqchk_all(build):
+    """thorough tier: re-check every compiled Props module and all it depends on with the independent
+    checker; cached per machinery hash"""
+    path = os.path.join(CACHE, 'coqchk-%s.json' % build['mach'])
+    if os.path.exists(path):
+        try:
+            return json.load(open(path))
+        except Exception:
+            pass
+    mods = ['LP.Props.%s' % pid for pid in sorted(PROPS)]
+    t0 = time.time()
+    rc, out = sh(['timeout', '1500', 'coqchk', '-silent', '-o', '-Q', '.', 'LP'] + mods, cwd=COQ, timeout=1600)
+    m = re.search(r'\* Axioms:\s*(.*?)\n\s*\n', out, flags=re.S)
+    axioms = m.group(1).strip() if m else 'unparsed'
+    bad = [k for k in ('type-in-type', 'unsafe (co)fixpoints', 'positivity is assumed')
+           if not re.search(re.escape(k) + r':\s*<none>', out)]
+    r = {'ok': rc == 0 and axioms == '<none>' and not bad, 'rc': rc, 'axioms': axioms, 'unchecked': bad,
+         'wall_s': round(time.time() - t0, 1), 'tail': out[-600:]}
+    json.dump(r, open(path, 'w'), indent=1)
+    return r
+
+
 def check_props_file(pid):
     """re-check Props/<pid>.v with coqc; returns dict(theorems, closed, ok, out)"""
     v = 'Props/%s.v' % pid
@@ -517,6 +539,11 @@ def run_property(pid, tier, seed):
                 if not match_known(v, known):
                     new_viol.append(v)
                     res['histories']['%s/%s' % (v['run'], v['hid'])] = v.pop('history')
+        chk = None
+        if tier == 'thorough' and not build['coq_failed']:
+            chk = coqchk_all(build)
+            if not chk['ok']:
+                hyg = hyg + ['coqchk: rc=%s axioms=%s unchecked=%s' % (chk['rc'], chk['axioms'], chk['unchecked'])]
         proof_broken = (not pf['ok']) or bool(cone_failed) or bool(hyg)
         # ---- report
         if new_viol:
@@ -555,6 +582,7 @@ def run_property(pid, tier, seed):
                 'checker_cmd': 'cd /verif/coq && make -k -j16 (full .vo build) && coqc -Q . LP Props/%s.v  # statements + Print Assumptions' % pid,
                 'trusted_base': TRUSTED_BASE,
                 'theorems': pf['theorems'], 'assumptions_closed': pf['closed'], 'gentable_lemmas': spec.get('gentable', []),
+                'coqchk': ({k: chk[k] for k in ('ok', 'axioms', 'unchecked', 'wall_s')} if chk else 'thorough tier only'),
                 'programs': progs, 'disagreements_checked': len(res['disagreements']),
                 'disagreements_relevant': len(my_dis),
                 'evaluations': sum(st.get(k, {}).get('calls_ok', 0) + st.get(k, {}).get('calls_rejected', 0) for k in ('main', 'wrap')),
